@@ -26,6 +26,7 @@ type c02Scenario struct {
 	K      int    `json:"k"`
 	Serve  string `json:"serve"` // what the host does with the channel meanwhile: drain, feed, none
 	Lib    string `json:"lib,omitempty"` // run first, with its own (never cancelled) context, on the same environment
+	MayFinish bool `json:"may_finish,omitempty"` // the script may also end by itself: what is required is that the call returns
 	Trials int    `json:"trials"`
 	Bad    int    `json:"bad"`
 	First  string `json:"first_failure,omitempty"`
@@ -86,6 +87,9 @@ func c02Trial(sc *c02Scenario, trial int) string {
 	for got := 0; got < sc.K; got++ {
 		select {
 		case r := <-done:
+			if sc.MayFinish {
+				continue
+			}
 			if r.err == nil || r.err.Error() != "execution interrupted" {
 				return fmt.Sprintf("trial %d: a call returned %v instead of the error \"execution interrupted\"", trial, r.err)
 			}
@@ -119,6 +123,13 @@ func c02Stress(n int, outDir string) error {
 		{Name: "variadic library function blocked on a receive", Lib: "func wait(xs...) { return (<- ch) }", Src: "wait(1)", Cap: 0, K: 2, Serve: "none"},
 		{Name: "variadic library function called inside try", Lib: "func spin(xs...) { for i = 0; true; i++ { } }", Src: "try { spin() } catch e { }; for { }", Cap: 1, K: 2, Serve: "none"},
 		{Name: "library closure of five parameters recursing", Lib: "f = func(a, b, c, d, e) { return f(a, b, c, d, e + 0) }", Src: "func g() { return 1 }; for { g() }", Cap: 1, K: 2, Serve: "none"},
+		// values that refer to themselves must not send a conversion of the interpreter into an endless loop no cancellation can reach
+		{Name: "self-referencing pointer as a condition", Src: "x = nil; p = &x; *p = p; if p { 1 }", Cap: 1, K: 1, Serve: "none", MayFinish: true},
+		{Name: "self-referencing pointer as a number", Src: "x = nil; p = &x; *p = p; r = (p + 1) ?? 0; r", Cap: 1, K: 1, Serve: "none", MayFinish: true},
+		{Name: "self-referencing pointer as an index", Src: "x = nil; p = &x; *p = p; r = ([1, 2][p]) ?? 0; r", Cap: 1, K: 1, Serve: "none", MayFinish: true},
+		{Name: "self-referencing pointer in a loop condition", Src: "x = nil; p = &x; *p = p; for p { break }", Cap: 1, K: 1, Serve: "none", MayFinish: true},
+		{Name: "self-referencing pointer as a repeat count", Src: "x = nil; p = &x; *p = p; r = (\"a\" * p) ?? 0; r", Cap: 1, K: 1, Serve: "none", MayFinish: true},
+		{Name: "two pointers referring to each other", Src: "x = nil; y = nil; p = &x; q = &y; *p = q; *q = p; r = (!p) ?? 0; r", Cap: 1, K: 1, Serve: "none", MayFinish: true},
 		{Name: "nobody serves: blocked from the start", Src: "ch <- 1; ch <- 2; ch <- 3", Cap: 1, K: 3, Serve: "none"},
 	}
 	for _, sc := range scs {
